@@ -523,7 +523,9 @@ def _fix_multiline_opening_tag_with_closing(text: str) -> str:
             result_lines.append(line)
             continue
 
-        stripped = line.lstrip()
+        # Leading indentation, including block quote markers when the paragraph is in a quote.
+        stripped = line.lstrip(" \t>")
+        line_prefix = line[: len(line) - len(stripped)]
 
         # Only process lines that are continuations (don't start with a tag opener).
         # If a line starts with a tag opener, the tag began on that line, not a continuation.
@@ -544,7 +546,8 @@ def _fix_multiline_opening_tag_with_closing(text: str) -> str:
                         before = line[:split_pos].rstrip()
                         closing = line[split_pos:].lstrip()
                         result_lines.append(before)
-                        result_lines.append(closing)
+                        # The closing tag stays in the same container as the line it came from.
+                        result_lines.append(line_prefix + closing)
                         break
                 continue
 
